@@ -26,6 +26,7 @@ OUTSIDE = ['programs with more free tokens than the bound; nesting deeper '
            'than the contexts']
 
 ALPHA = ST.make_alphabet()
+REUSE = [False]
 
 
 def sig_kinds(toks, names):
@@ -45,6 +46,12 @@ def compare(x, toks, sig):
         return None
     x.tag('ref accepts')
     p = parser.Parser(version=8)
+    if REUSE[0]:
+        # the Parser object has parsed another program before (Lua objects
+        # are updated in place: update_from_lines, reparse): nothing of the
+        # earlier parse may influence this one
+        p.process_tokens(ctx_tokens(b'\n  -- c\n\tq = { 1,\n 2 } -- d\n\n'
+                                    b'if (q) r=1 else r=2\n  ?q\n'))
     try:
         p.process_tokens(toks)
     except Exception as e:
@@ -76,6 +83,7 @@ def known(toks):
 
 
 def kinds(x, p):
+    REUSE[0] = bool(p.get('reuse'))
     k = p['k']
     toks = ST.tokens(x, k, ALPHA)
     compare(x, toks, known(toks))
@@ -91,6 +99,7 @@ def ctx_tokens(spec):
 def context(x, p):
     """Concrete prefix/suffix around a hole of k symbolic tokens, with a
     symbolic trivia token in every gap of the context."""
+    REUSE[0] = bool(p.get('reuse'))
     pre = ctx_tokens(p['pre'].encode('latin-1'))
     post = ctx_tokens(p['post'].encode('latin-1'))
     hole = ST.tokens(x, p['k'], ALPHA)
@@ -114,6 +123,7 @@ def context(x, p):
 
 def seeds(x, p):
     """Concrete programs that use every statement and expression form."""
+    REUSE[0] = bool(p.get('reuse'))
     toks = ctx_tokens(p['src'].encode('latin-1'))
     x.out('n', len(toks))
     compare(x, toks, known(toks))
@@ -139,6 +149,9 @@ EVERY = [
     'x=t[a+b] f(a+b,c*d) t={a+b,[c+d]=e+f,g=h+i} local y,z=a+b,c+d\n'
     'x,y=a+b,c+d x+=a+b\nreturn a+b,c+d\n',
     'x=-a+b x=not a+b x=#a+b x=(a+b)+c x=f(a)+b x=a.b+c x=a[b]+c\n',
+    # statements that begin with a parenthesised prefix expression
+    '(f or g)(x)\n("abc"):rep(3)\n(t).n=5 (t)[1],(u).v=1,2\n'
+    '(function() end)()\ndo (a)() end\n',
     # the ? print shorthand: line scoped, any argument list
     '?x,y\nz=1\n', '?"s"', '? "a",1+2,f(x) -- c\nz=1\n',
     'if (a) ?x\n?y,z --c\nif a then ?x\nend\nx=1 ?x\n',
@@ -150,8 +163,10 @@ CONTEXTS = [
     ('t={', '}\n'), ('f(', ')\n'),
 ]
 HARNESSES = [
-    Harness('seeds', seeds, quick=[dict(Q, src=s) for s in EVERY]),
-    Harness('kinds', kinds, quick=[dict(Q, k=1), dict(Q, k=2), dict(Q, k=3)],
+    Harness('seeds', seeds, quick=[dict(Q, src=s) for s in EVERY] +
+            [dict(Q, src=s, reuse=True) for s in EVERY]),
+    Harness('kinds', kinds, quick=[dict(Q, k=1), dict(Q, k=2), dict(Q, k=3),
+                                   dict(Q, k=2, reuse=True)],
             thorough=[dict(Q, k=1), dict(Q, k=2), dict(Q, k=3),
                       dict(Q, k=4, _budget=3000)]),
     Harness('context', context,
